@@ -118,7 +118,7 @@ def run(ch, idx, tier):
         stats[k] = stats.get(k, 0) + n
 
     violations = []
-    names = [n for n in PROJECTS if n in _CORPUS]
+    names = [n for n in PROJECTS if n in _CORPUS] + corpus.generated_names()
     if ch.flip("heavy_model", 0.04):
         names = [n for n in HEAVY if n in _CORPUS] or names
     name = ch.pick("project", names)
